@@ -4,6 +4,6 @@ from .worldcommon import ASSUME, TRUSTED
 SPEC = dict(id="C06", kind="world", monitor="trial_ok", binary="c06",
     pure_part=dict(binary="c06", gen="c06", corr="C06J", n_quick=400, n_thorough=8000),
     coq_targets=["theories/Props/C06.vo", "theories/Corr/WorldAll.vo", "theories/Corr/C06J.vo"],
-    level_text="C06_permanent proved over all runs from the inductive invariant (a status write lands only if computed from the current object, and every planned status keeps terminal conditions); C06_succeeded_needs_value / failed_from_failed_job / metrics_unavailable proved for UpdateTrialStatusCondition on every input; exclusivity and the job/metrics-to-verdict relation monitored on the implementation's states",
+    level_text="C06_permanent proved over all runs from the inductive invariant (a status write lands only if computed from the current object, and every planned status keeps terminal conditions); C06_succeeded_needs_value / failed_from_failed_job / metrics_unavailable proved for UpdateTrialStatusCondition on every input; C06_metrics_unavailable_justified over all runs (a trial becomes MetricsUnavailable only through the trial reconcile in progress for it and only if the DB held no objective value for it when that reconcile began; invariant MuInv with a ghost snapshot, Proofs/WorldMu.v) which is also the soundness of the walk monitor mu_walk; exclusivity and the job/metrics-to-verdict relation monitored on the implementation's states",
     level_note="exclusivity and 'Succeeded needs a value' are theorems over runs (C06_exclusive, part of the inductive invariant) and monitored on the implementation; GetDeployedJobStatus' gjson evaluation is exercised through the simulator with default Job conditions only (its decision order is C06_failure_first / Model/JobStatus.v with cmd/c06)" + "; " + "; ".join(ASSUME),
     assumptions=ASSUME, trusted_base=TRUSTED)
